@@ -1,8 +1,8 @@
 (* Instance lemmas for C10 (metrics): every Record* function of pkg/metrics and pkg/sql/monitor, as translated
    from the current source into Gen/MetricsProg.v, has the accepted shape for every location it touches:
    counters are only atomically added to (or updated inside the struct's mutex), the largest / smallest query
-   size are updated by the compare-and-swap loop of Model/Metrics.v (cas_prog with max_skip / min_skip) — not by
-   load-compare-store —, time stamps are only stored, and no statement was left untranslated. *)
+   size are updated by a compare-and-swap retry loop (the class Model.Metrics.is_rmw_loop, decided on the translated
+   control-flow graph) — not by load-compare-store, a single attempt or a plain store —, time stamps are only stored, and no statement was left untranslated. *)
 From Coq Require Import List ZArith NArith Bool Lia.
 From GV Require Import Model.Metrics Gen.MetricsProg Model.Footprint Gen.Globals.
 Import ListNotations.
@@ -13,16 +13,21 @@ Proof. vm_compute. reflexivity. Qed.
 Lemma monitor_progs_ok : forallb (prog_ok monitor_roles) monitor_progs = true.
 Proof. vm_compute. reflexivity. Qed.
 
-(* which of the two recognised programs the source is: the CAS loop *)
-Lemma max_update_is_cas_loop :
-  In {| s_cond := CTrue; s_loc := metrics_pub_MaxQuerySize; s_body := BRmw (cas_prog (max_skip (EArg 1)) (EArg 1)) |}
-     metrics_RecordTokenization.
-Proof. vm_compute. tauto. Qed.
+(* the update of the largest / smallest query size in the source: an unconditional section on the location behind
+   Stats.MaxQuerySize / Stats.MinQuerySize whose program is in the class of compare-and-swap retry loops
+   (Model.Metrics.is_rmw_loop: whatever the loop is written like) and records the query size (argument 1) *)
+Definition is_size_update (o : ospec) (l : loc) (s : section) : bool :=
+  N.eqb (s_loc s) l &&
+  match s_cond s, s_body s with
+  | CTrue, BRmw p => is_rmw_loop o p (EArg 1) && match operand p with Some v => expr_eqb v (EArg 1) | None => false end
+  | _, _ => false
+  end.
 
-Lemma min_update_is_cas_loop :
-  In {| s_cond := CTrue; s_loc := metrics_pub_MinQuerySize; s_body := BRmw (cas_prog (min_skip (EArg 1)) (EArg 1)) |}
-     metrics_RecordTokenization.
-Proof. vm_compute. tauto. Qed.
+Lemma max_update_is_rmw_loop : existsb (is_size_update max_spec metrics_pub_MaxQuerySize) metrics_RecordTokenization = true.
+Proof. vm_compute. reflexivity. Qed.
+
+Lemma min_update_is_rmw_loop : existsb (is_size_update min_spec metrics_pub_MinQuerySize) metrics_RecordTokenization = true.
+Proof. vm_compute. reflexivity. Qed.
 
 (* what one call contributes / records, read off the translated program (arguments: duration, querySize, err) *)
 Local Open Scope Z_scope.
